@@ -10,13 +10,17 @@ for f in sorted(glob.glob(os.path.join(V, "seeded", "*", "meta.json"))):
         if v.get("exit") == 1:
             det.append("%s (%s)" % (c, "; ".join(r.split(" key=")[0].split(".", 1)[-1] for r in v.get("rules", [])[:3])))
     missed = [c for c, v in sorted(m.get("checks", {}).items()) if v.get("exit") == 0]
-    rows.append("| %s | %s | %s | %s | %s |" % (
+    note = ""
+    np_ = os.path.join(os.path.dirname(f), "NOTE.md")
+    if os.path.exists(np_):
+        note = open(np_).read().strip().replace("|", "/").replace("\n", " ")
+    rows.append("| %s | %s | %s | %s | %s | %s |" % (
         m["id"], m.get("title", "").replace("|", "/")[:110], "yes" if m.get("confirmed") else "NO",
-        ", ".join(det) or "-", ", ".join(missed) or "-"))
+        ", ".join(det) or "-", ", ".join(missed) or "-", note))
 hdr = ("Changes produced by fresh sub-agents that saw only the property text and a scratch worktree (ids `Cxx-mN`), plus a few made by hand "
        "(`-hand-`). Each was confirmed in a scratch worktree (builds, baseline suite green, its demonstration fails with it and passes "
        "without it), then applied to /repo, the named quick checks were run, and /repo was restored. `meta.json` in each directory has the details.\n\n"
-       "| id | change | confirmed | detected by (rules) | ran clean (missed) |\n|---|---|---|---|---|\n")
+       "| id | change | confirmed | detected by (rules) | ran clean (missed) | note |\n|---|---|---|---|---|---|\n")
 table = hdr + "\n".join(rows) + "\n"
 p = os.path.join(V, "DESIGN.md")
 s = open(p).read()
